@@ -87,6 +87,7 @@ fn gen(rng: &mut Rng) -> Program {
             Op::CreateDb { db: a },
             Op::Write { db: a, key: 1 },
             Op::Snapshot { mask: (1 << a) | (1 << b) | 1, reclaim: false },
+            Op::Write { db: a, key: 3 },
             Op::RestartKill,
             Op::Write { db: a, key: 2 },
         ];
@@ -165,6 +166,10 @@ fn execute(prog: Program) -> Outcome {
     let mut armed = false;
     let mut last_restart_kind = "none";
 
+    // databases that completed a snapshot (they persist: their records must keep decoding), and the records written for
+    // them after that
+    let solid_names: std::cell::RefCell<std::collections::BTreeSet<String>> = Default::default();
+    let solid_recs: std::cell::RefCell<std::collections::BTreeSet<(u64, u64, u64, u8)>> = Default::default();
     // attribute records written since the last call, using the id maps of the *writing* lifetime
     let mut attribute = |dbs: &Arc<Databases>, known: &mut usize, intent: &mut BTreeMap<(u64, u64, u64, u8), (String, String, u8)>, viols: &mut Vec<Violation>| {
         let (all, _, _) = scan(idx);
@@ -172,10 +177,14 @@ fn execute(prog: Program) -> Outcome {
             // log was discarded meanwhile
             *known = 0;
             intent.clear();
+            solid_recs.borrow_mut().clear();
         }
         let (dbm, km) = id_maps(dbs);
         for r in all.iter().skip(*known) {
             let dbn = dbm.get(&r.db).cloned().unwrap_or_else(|| format!("<unknown db id {}>", r.db));
+            if solid_names.borrow().contains(&dbn) {
+                solid_recs.borrow_mut().insert((r.time, r.db, r.key, r.op));
+            }
             let kn = if r.op <= 1 { km.get(&r.key).cloned().unwrap_or_else(|| format!("<unknown key id {}>", r.key)) } else { String::new() };
             if let Some(prev) = intent.get(&(r.time, r.db, r.key, r.op)) {
                 // the record written twice at a rotation boundary carries the same content
@@ -218,7 +227,10 @@ fn execute(prog: Program) -> Outcome {
                 let dbn = dbm.get(&r.db).cloned();
                 let kn = if r.op <= 1 { km.get(&r.key).cloned() } else { Some(String::new()) };
                 if dbn.as_deref() != Some(want.0.as_str()) {
-                    let shape = format!("{}:db:{}", kind, if dbn.is_none() { "undecodable" } else { "other-database" });
+                    // (records of a database that never completed a snapshot are the recorded finding; a database that
+                    //  did persists, and so must the meaning of its records)
+                    let persisted = solid_recs.borrow().contains(&(r.time, r.db, r.key, r.op));
+                    let shape = format!("{}:db:{}{}", kind, if persisted { "persisted-database-" } else { "" }, if dbn.is_none() { "undecodable" } else { "other-database" });
                     if !out.violations.iter().any(|v| v.shape == shape) {
                         out.violations.push(Violation::new(
                             "record-decodes-wrong",
@@ -226,7 +238,7 @@ fn execute(prog: Program) -> Outcome {
                             format!("after {}: record {} was written for database {:?} (id {}), the restarted node maps that id to {:?}", kind, r.time, want.0, r.db, dbn),
                         ));
                     }
-                    if dbn.is_none() {
+                    if dbn.is_none() && !persisted {
                         // keep checking the other records (this class is a recorded finding)
                         continue;
                     }
@@ -322,7 +334,14 @@ fn execute(prog: Program) -> Outcome {
                         }
                     }
                 }
-                let _ = w.declutter_tick(0, 20_000);
+                let done = w.declutter_tick(0, 20_000);
+                if done && !r.resp.is_err() && w.alive(0) && !armed {
+                    for i in 0..4 {
+                        if mask & (1 << i) != 0 && dbs.map.read().unwrap().contains_key(DBN[i]) {
+                            solid_names.borrow_mut().insert(DBN[i].to_string());
+                        }
+                    }
+                }
             }
             Op::RestartKill | Op::RestartSigint => {
                 sleep_ms(2);
